@@ -127,36 +127,35 @@ def _str2hashbuf(msg, num, signed):
     return out
 
 
-def _rol(x, s):
-    return ((x << s) | (x >> (32 - s))) & MASK
-
-
-def _half_md4(buf, d):
-    a, b, c, dd = buf
-    K2, K3 = 0x5A827999, 0x6ED9EBA1
-
-    def F(x, y, z): return z ^ (x & (y ^ z))
-    def G(x, y, z): return ((x & y) + ((x ^ y) & z)) & MASK
-    def H(x, y, z): return x ^ y ^ z
-    for f, k, order, shifts in ((F, 0, (0, 1, 2, 3, 4, 5, 6, 7), (3, 7, 11, 19)),
-                                (G, K2, (1, 3, 5, 7, 0, 2, 4, 6), (3, 5, 9, 13)),
-                                (H, K3, (3, 7, 2, 6, 1, 5, 0, 4), (3, 9, 11, 15))):
+def _mk_half_md4():
+    """straight-line half-MD4 transform (24 steps) generated once at import: python loops are too slow here"""
+    L = ["def _half_md4(buf, d):", "    a, b, c, e = buf", "    M = 0xFFFFFFFF",
+         "    d0, d1, d2, d3, d4, d5, d6, d7 = d"]
+    F = "({z} ^ ({x} & ({y} ^ {z})))"
+    G = "((({x} & {y}) + (({x} ^ {y}) & {z})) & M)"
+    H = "({x} ^ {y} ^ {z})"
+    rounds = ((F, 0, (0, 1, 2, 3, 4, 5, 6, 7), (3, 7, 11, 19)),
+              (G, 0x5A827999, (1, 3, 5, 7, 0, 2, 4, 6), (3, 5, 9, 13)),
+              (H, 0x6ED9EBA1, (3, 7, 2, 6, 1, 5, 0, 4), (3, 9, 11, 15)))
+    regs = ["a", "b", "c", "e"]
+    for f, k, order, shifts in rounds:
         for j in range(8):
-            x = (d[order[j]] + k) & MASK
-            s = shifts[j & 3]
             r = j & 3
-            if r == 0:
-                a = _rol((a + f(b, c, dd) + x) & MASK, s)
-            elif r == 1:
-                dd = _rol((dd + f(a, b, c) + x) & MASK, s)
-            elif r == 2:
-                c = _rol((c + f(dd, a, b) + x) & MASK, s)
-            else:
-                b = _rol((b + f(c, dd, a) + x) & MASK, s)
-    buf[0] = (buf[0] + a) & MASK
-    buf[1] = (buf[1] + b) & MASK
-    buf[2] = (buf[2] + c) & MASK
-    buf[3] = (buf[3] + dd) & MASK
+            # step r updates register t using the other three in the order (x, y, z)
+            t, x, y, z = [("a", "b", "c", "e"), ("e", "a", "b", "c"), ("c", "e", "a", "b"), ("b", "c", "e", "a")][r]
+            sft = shifts[r]
+            L.append("    t = (%s + %s + d%d + %d) & M" % (t, f.format(x=x, y=y, z=z), order[j], k))
+            L.append("    %s = ((t << %d) | (t >> %d)) & M" % (t, sft, 32 - sft))
+    L.append("    buf[0] = (buf[0] + a) & M")
+    L.append("    buf[1] = (buf[1] + b) & M")
+    L.append("    buf[2] = (buf[2] + c) & M")
+    L.append("    buf[3] = (buf[3] + e) & M")
+    ns = {}
+    exec("\n".join(L), ns)
+    return ns["_half_md4"]
+
+
+_half_md4 = _mk_half_md4()
 
 
 def _tea(buf, d):
